@@ -56,7 +56,8 @@ func (check) Assumptions() []string {
 		"a fractional float whose truncation fits but which lies beyond the range as a real (127.9 into int8) may be an error or the truncated value",
 		"not compared: which error; number<->bool and bool->number/Duration (no mathematical reading); spellings on/off/yes/no for bool; the text a float renders to (it must parse back to the same float64); sign of zero; NaN payload",
 		"an error where a value was possible is reported only for in-range integer->integer, integer->float64 when exactly representable, and float64->float64 (literal numbers, any route)",
-		"not generated: named types over time.Duration (an int64 of nanoseconds to the library)",
+		"a named type over time.Duration (type D time.Duration, also *D, as map value and slice element) is a duration like time.Duration itself: numbers mean seconds, strings are duration syntax, the range is int64 nanoseconds; a stored value equal to the bare number gets the signature number-to-named-duration-taken-as-nanoseconds",
+		"monitor only (an error is always allowed): plain_ref_fails_where_value_converts counts (value, target, route) triples of the table cases in which the literal / Set* value converts and a plain \"${src}\" reference to it returns an error",
 		"text the library reads again (expansion forms other than a plain \"${src}\", resolver answers, flag values): only words without white space, quotes, brackets, commas, colons, $ and not \"null\", so that list/object/quoting syntax and the splice syntax play no part. The reference for text T: an integer numeral in Go's base-0 syntax (math/big, any length, explicit + allowed) that fits int64 or uint64 must reach integer targets exactly or as an error, string targets as a numeral of exactly that value (any spelling, read back with math/big), float targets as the nearest float; a numeral both integer and floating point syntax read, differently (\"012\": 10 / 12), may arrive as either in float and string targets; an integer no 64 bit type holds is out of range for every integer target (always an error), for string targets its own text, an exact numeral or a text of the float64 strconv.ParseFloat reads it as; floating point texts mean the float64 strconv.ParseFloat reads; boolean words are not pinned for numeric and string targets, numerals not for bool targets; an error is never reported as spurious on these routes; which of the forms yields which Go type inside the library is not looked at",
 		"guard: a library that hands back an unconverted string for a named string type panics (recoverably) as map value and never returns (pointerize allocates until the process dies) as struct field or behind a pointer; so in every case the named string map route runs first, and when it panics - reported as a violation - the never-returning routes of that case are skipped (counted in skipped_after_named_string_panic) instead of killing the worker in every case",
 	}
@@ -262,6 +263,7 @@ type runner struct {
 	vclass  string
 	nontriv bool
 	verbose bool
+	last    int // outcome of the latest conversion (lastNone: none ran)
 	// named string guard, per construction: 0 not run, 1 fine, 2 panicked
 	canary [nCons]int
 }
@@ -499,7 +501,12 @@ func (ru *runner) unpack(cons int, ki int, t *target, route int) (didPanic bool)
 			got = got.Elem()
 		}
 	}
-	ru.judge(cons, ki, t.k, t.k.name, err, got, present, call)
+	to := t.k.name
+	named := t.variant == vNamed || t.variant == vPtrNamed
+	if t.k.class == cDur && named {
+		to = "named-duration"
+	}
+	ru.judge(cons, ki, t.k, to, err, got, present, call)
 	return false
 }
 
@@ -615,6 +622,35 @@ func errClass(err error) string {
 // to names the target in signatures: the kind for Unpack, "Int()" etc. for getters.
 func (ru *runner) judge(cons, ki int, k *tkind, to string, err error, got reflect.Value, present bool, call func() string) {
 	e, from := ru.expFor(cons, ki)
+	namedDur := to == "named-duration"
+	ru.last = lastOK
+	if err != nil {
+		ru.last = lastErr
+	}
+	if namedDur {
+		defer func(n int) {
+			if ru.res.Events["violations_raw"] > int64(n) {
+				ru.res.Ev("named_duration_violations", 1)
+			} else if err != nil {
+				ru.res.Ev("named_duration_errors", 1)
+			} else {
+				ru.res.Ev("named_duration_values_as_expected", 1)
+			}
+		}(int(ru.res.Events["violations_raw"]))
+	}
+	// a named duration that received the bare number: the number was taken as
+	// nanoseconds (one defect, whatever the source and whether the seconds fit)
+	asNanos := func() bool {
+		if !namedDur {
+			return false
+		}
+		es := ru.s
+		if cons >= nDirect && !rendered(cons) {
+			es = ru.tsrc
+		}
+		v := nsReading(es)
+		return v != nil && v.Sign() != 0 && gotInt(k, got).Cmp(v) == 0
+	}
 	if err != nil {
 		ru.res.SetAdd("error_reason", errClass(err))
 		switch e.mode {
@@ -649,6 +685,9 @@ func (ru *runner) judge(cons, ki int, k *tkind, to string, err error, got reflec
 			dev = "imprecise"
 		}
 		sig := from + "-to-" + to + "-" + dev
+		if asNanos() {
+			sig = "number-to-named-duration-taken-as-nanoseconds"
+		}
 		if e.neighbour != nil && (k.class == cInt || k.class == cUint) && gotInt(k, got).Cmp(e.neighbour) == 0 {
 			// one defect whatever the 64 bit target is called
 			sig = "reparsed-integer-beyond-64-bits-stored-as-float64-neighbour"
@@ -673,29 +712,65 @@ func (ru *runner) judge(cons, ki int, k *tkind, to string, err error, got reflec
 		// the text was read as a floating point number: one defect whatever the target
 		sig = from + "-rounded-to-float64"
 	}
+	if asNanos() {
+		sig = "number-to-named-duration-taken-as-nanoseconds"
+	}
 	ru.res.Violate(sig, "%s returned nil error and stored %s, expected %s", call(), describeGot(k, got), e.describe())
 	ru.outcome(k, "wrong-value")
+}
+
+const (
+	lastNone = iota
+	lastOK
+	lastErr
+)
+
+// refVsLiteral (monitor only, the property allows an error anywhere): how often
+// a plain "${src}" reference to a value fails where the value itself converts.
+func (ru *runner) refVsLiteral(st [nDirect]int, to string) {
+	for _, p := range [][2]int{{cLit, cRefLit}, {cSet, cRefSet}} {
+		if st[p[0]] == lastNone || st[p[1]] == lastNone {
+			continue
+		}
+		ru.res.Ev("plain_ref_vs_value_pairs", 1)
+		switch {
+		case st[p[0]] == lastOK && st[p[1]] == lastErr:
+			ru.res.Ev("plain_ref_fails_where_value_converts", 1)
+			ru.res.SetAdd("plain_ref_fails_where_value_converts_pair", ru.s.kindName()+"->"+to)
+		case st[p[0]] == lastErr && st[p[1]] == lastOK:
+			ru.res.Ev("plain_ref_converts_where_value_fails", 1)
+			ru.res.SetAdd("plain_ref_converts_where_value_fails_pair", ru.s.kindName()+"->"+to)
+		}
+	}
 }
 
 // runFull: the whole cross product for one value.
 func runFull(res *harness.R, r *rand.Rand, s src, verbose bool) {
 	ru := newRunner(res, r, s, verbose)
 	for ki := range kinds {
-		for cons := 0; cons < nDirect; cons++ {
-			for _, t := range targetsOf[ki] {
-				for route := 0; route < nRoutes; route++ {
+		for _, t := range targetsOf[ki] {
+			for route := 0; route < nRoutes; route++ {
+				var st [nDirect]int
+				for cons := 0; cons < nDirect; cons++ {
 					if t == namedString && route == rMap && ru.canary[cons] != 0 {
 						continue // already run as the guard
 					}
+					ru.last = lastNone
 					ru.unpack(cons, ki, t, route)
+					st[cons] = ru.last
 				}
+				ru.refVsLiteral(st, t.k.name)
 			}
 		}
 	}
 	for gi := range getters {
+		var st [nDirect]int
 		for cons := 0; cons < nDirect; cons++ {
+			ru.last = lastNone
 			ru.getter(cons, gi)
+			st[cons] = ru.last
 		}
+		ru.refVsLiteral(st, getters[gi].name+"()")
 	}
 	// text routes: every form x every target type, through one route each
 	// (the routes differ in how the target is reached, not in how the text is read)
